@@ -21,6 +21,13 @@ datagrams and peer addresses).  Readings fixed here, literally as the code compu
 * destinations: RDAC accept and redirect go to the record's stored `address_out` (`("", 0)` until the
   application stores one: input `setOut`), DMR accept and redirect to `(requester ip, p2p_port)`, ping
   answer and reject to the requester;
+* the application may patch any member / attribute of a record between datagrams (`setOut`, `envPatch`)
+  except `id`, `address_in` and the is-registered key itself (`envOk`): attributes whose names merely
+  resemble the key authorise nobody;
+* "expected response" / "command" / "ping" are prefix comparisons over the WHOLE compared region: a
+  datagram that is one octet short, or differs from the compared value in any single octet of the
+  region, is not expected (`rdac_near_miss_inert`, `p2p_near_miss_*`); the compared values themselves are
+  pinned (`proto_pinned`);
 * a peer of the RDAC handler is an **IP** (`self.step` is keyed by `addr[0]`): two peers behind one
   IP share a run — isolation and "completion once" are per IP;
 * at step 0 *any* datagram starts the identification (there is nothing to expect yet).
@@ -39,17 +46,19 @@ def restricted (k : OutKind) : Bool :=
 
 /-- the handler keeps the storage invariant of C20 along every history (so all C20 theorems apply to
 the storage the handlers share) -/
-theorem p2p_storage_inv (cfg : Cfg) (h : List Input) : Storage.Inv (P2p.run cfg h).1 := (run_spec cfg h).1
+theorem p2p_storage_inv (cfg : Cfg) (h : List Input) (henv : h.all envOk = true) :
+    Storage.Inv (P2p.run cfg h).1 := (run_spec cfg h henv).1
 
 /-- the stored flag is exactly "a registration from this address completed earlier in the history" -/
-theorem p2p_registered_iff (cfg : Cfg) (h : List Input) (a : Addr) :
-    reg (P2p.run cfg h).1 a = registeredIn h a := (run_spec cfg h).2 a
+theorem p2p_registered_iff (cfg : Cfg) (h : List Input) (henv : h.all envOk = true) (a : Addr) :
+    reg (P2p.run cfg h).1 a = registeredIn h a := (run_spec cfg h henv).2 a
 
 /-- **p2p_authorised.** After any history `h`, every DMR/RDAC start-up acceptance, redirect or ping
 answer emitted for a datagram from `a` is emitted only if a registration from `a` completed in `h`,
 and is addressed: RDAC accept/redirect to the stored outbound address of `a`'s record, DMR
 accept/redirect to `(a.ip, p2p_port)`, ping answer to `a`. -/
-theorem p2p_authorised (cfg : Cfg) (h : List Input) (a : Addr) (data : Bytes) (f : Bool) (o : Out)
+theorem p2p_authorised (cfg : Cfg) (h : List Input) (henv : h.all envOk = true)
+    (a : Addr) (data : Bytes) (f : Bool) (o : Out)
     (ho : o ∈ (P2p.step cfg (P2p.run cfg h).1 (.datagram a data f)).2.1) (hk : restricted o.kind = true) :
     registeredIn h a = true ∧
     ∃ r, (P2p.run cfg h).1.recOf a.val = some r ∧
@@ -57,8 +66,8 @@ theorem p2p_authorised (cfg : Cfg) (h : List Input) (a : Addr) (data : Bytes) (f
       ((o.kind = .dmrAccept ∨ o.kind = .dmrRedirect) → o.dest = .addr a.ip cfg.p2pPort) ∧
       (o.kind = .pingAnswer → o.dest = a.val) := by
   generalize hs : (P2p.run cfg h).1 = s at ho ⊢
-  have hinv : Storage.Inv s := hs ▸ p2p_storage_inv cfg h
-  have hreg : reg s a = registeredIn h a := hs ▸ p2p_registered_iff cfg h a
+  have hinv : Storage.Inv s := hs ▸ p2p_storage_inv cfg h henv
+  have hreg : reg s a = registeredIn h a := hs ▸ p2p_registered_iff cfg h henv a
   rw [← hreg]
   -- the registration answer is not a restricted output
   have hregans : dispatch data = .registration → False := by
@@ -116,12 +125,13 @@ theorem p2p_authorised (cfg : Cfg) (h : List Input) (a : Addr) (data : Bytes) (f
 /-- **p2p_reject_unregistered.** A DMR start-up, RDAC start-up or ping datagram from an address with no
 completed registration in the history is answered by exactly the single octet `0x00` to the
 requester; nothing is raised and the storage is untouched. -/
-theorem p2p_reject_unregistered (cfg : Cfg) (h : List Input) (a : Addr) (data : Bytes) (f : Bool)
+theorem p2p_reject_unregistered (cfg : Cfg) (h : List Input) (henv : h.all envOk = true)
+    (a : Addr) (data : Bytes) (f : Bool)
     (hreq : dispatch data = .rdacRequest ∨ dispatch data = .dmrRequest ∨ dispatch data = .ping)
     (hun : registeredIn h a = false) :
     P2p.step cfg (P2p.run cfg h).1 (.datagram a data f) =
       ((P2p.run cfg h).1, [{ kind := .reject, data := [0x00], dest := a.val }], .ok) := by
-  have hreg : reg (P2p.run cfg h).1 a = false := by rw [p2p_registered_iff, hun]
+  have hreg : reg (P2p.run cfg h).1 a = false := by rw [p2p_registered_iff cfg h henv, hun]
   obtain ⟨e1, e2, e3⟩ := request_unregistered cfg (P2p.run cfg h).1 a data hreg
   rcases hreq with hd | hd | hd <;> simp only [P2p.step, hd, e1, e2, e3]
 
@@ -149,7 +159,8 @@ theorem p2p_silent (cfg : Cfg) (s : Store) (a : Addr) (data : Bytes) (f : Bool)
 /-- a registration is answered whoever sends it (that is how a peer registers): one datagram, to the
 stored outbound address, then the flag is set — unless `data[4] = 255` (`ValueError`, nothing happens)
 or the SNMP call fails (answered, not registered) -/
-theorem p2p_registration (cfg : Cfg) (h : List Input) (a : Addr) (data : Bytes) (f : Bool)
+theorem p2p_registration (cfg : Cfg) (h : List Input) (henv : h.all envOk = true)
+    (a : Addr) (data : Bytes) (f : Bool)
     (hd : dispatch data = .registration) :
     (octet data 4 + 1 < 256 →
       (P2p.step cfg (P2p.run cfg h).1 (.datagram a data f)).2.1 =
@@ -158,7 +169,7 @@ theorem p2p_registration (cfg : Cfg) (h : List Input) (a : Addr) (data : Bytes) 
       (P2p.step cfg (P2p.run cfg h).1 (.datagram a data f)).2.2 = (if f then .err .snmpError else .ok)) ∧
     (¬ octet data 4 + 1 < 256 →
       P2p.step cfg (P2p.run cfg h).1 (.datagram a data f) = ((P2p.run cfg h).1, [], .err .valueError)) := by
-  obtain ⟨hok, hbad⟩ := handleRegistration_spec (p2p_storage_inv cfg h) a data f hd
+  obtain ⟨hok, hbad⟩ := handleRegistration_spec (p2p_storage_inv cfg h henv) a data f hd
   constructor
   · intro hb
     obtain ⟨r0, hr0, houts, _, hT, hF⟩ := hok hb
@@ -173,13 +184,14 @@ theorem p2p_registration (cfg : Cfg) (h : List Input) (a : Addr) (data : Bytes) 
 /-- **errors leave the state unchanged**: whenever a P2P datagram raises `ValueError`, `IndexError` or
 `OverflowError`, the storage is exactly as before (the SNMP failure is the one exception: the record
 exists and the answer was sent, the flag is not set — see `p2p_registration`) -/
-theorem p2p_error_state_unchanged (cfg : Cfg) (h : List Input) (a : Addr) (data : Bytes) (f : Bool) (e : P2p.Err)
+theorem p2p_error_state_unchanged (cfg : Cfg) (h : List Input) (henv : h.all envOk = true)
+    (a : Addr) (data : Bytes) (f : Bool) (e : P2p.Err)
     (he : (P2p.step cfg (P2p.run cfg h).1 (.datagram a data f)).2.2 = .err e) (hne : e ≠ .snmpError) :
     (P2p.step cfg (P2p.run cfg h).1 (.datagram a data f)).1 = (P2p.run cfg h).1 := by
   cases hd : dispatch data with
   | registration =>
     simp only [P2p.step, hd] at he ⊢
-    obtain ⟨hok, hbad⟩ := handleRegistration_spec (p2p_storage_inv cfg h) a data f hd
+    obtain ⟨hok, hbad⟩ := handleRegistration_spec (p2p_storage_inv cfg h henv) a data f hd
     by_cases hb : octet data 4 + 1 < 256
     · obtain ⟨r0, _, _, _, hT, hF⟩ := hok hb
       cases f with
@@ -193,13 +205,14 @@ theorem p2p_error_state_unchanged (cfg : Cfg) (h : List Input) (a : Addr) (data 
 
 /-- with 16-bit ports (every UDP source port, and the configured RDAC port) the redirect packets can
 always be built: `OverflowError` is unreachable -/
-theorem p2p_no_overflow (cfg : Cfg) (h : List Input) (a : Addr) (data : Bytes) (f : Bool)
+theorem p2p_no_overflow (cfg : Cfg) (h : List Input) (henv : h.all envOk = true)
+    (a : Addr) (data : Bytes) (f : Bool)
     (hc : cfg.rdacPort < 65536) (ha : a.port < 65536) :
     (P2p.step cfg (P2p.run cfg h).1 (.datagram a data f)).2.2 ≠ .err .overflowError := by
   cases hd : dispatch data with
   | registration =>
     simp only [P2p.step, hd]
-    obtain ⟨hok, hbad⟩ := handleRegistration_spec (p2p_storage_inv cfg h) a data f hd
+    obtain ⟨hok, hbad⟩ := handleRegistration_spec (p2p_storage_inv cfg h henv) a data f hd
     by_cases hb : octet data 4 + 1 < 256
     · obtain ⟨r0, _, _, _, hT, hF⟩ := hok hb
       cases f with
@@ -207,7 +220,7 @@ theorem p2p_no_overflow (cfg : Cfg) (h : List Input) (a : Addr) (data : Bytes) (
       | false => rw [(hF rfl).1]; intro e; cases e
     · rw [hbad hb]; intro e; cases e
   | rdacRequest => simp only [P2p.step, hd]; exact handleRdacRequest_no_overflow cfg _ a data hc
-  | dmrRequest => simp only [P2p.step, hd]; exact handleDmrRequest_no_overflow cfg (p2p_storage_inv cfg h) a data ha
+  | dmrRequest => simp only [P2p.step, hd]; exact handleDmrRequest_no_overflow cfg (p2p_storage_inv cfg h henv) a data ha
   | ping =>
     simp only [P2p.step, hd]
     unfold handlePing
@@ -221,6 +234,111 @@ theorem p2p_known_types :
     Gen.Proto.p2pKnownTypes = [Gen.Proto.p2pTypeDmrStartup, Gen.Proto.p2pTypeRdacStartup, Gen.Proto.p2pTypeRegistration] ∧
     Gen.Proto.p2pCommandPrefix.length = 3 ∧ Gen.Proto.p2pPingPrefix.length = 5 ∧ Gen.Proto.p2pAckPrefix.length = 5 := by
   decide
+
+/-- **the compared values are the protocol's** (pinned: a changed constant in `/repo` breaks this
+theorem, it is never followed silently): command / ping / acknowledgement prefixes, packet types, the
+is-registered key, and for every RDAC step the response it waits for and the requests it sends -/
+theorem proto_pinned :
+    Gen.Proto.p2pCommandPrefix = [0x50, 0x32, 0x50] ∧
+    Gen.Proto.p2pPingPrefix = [0x0A, 0, 0, 0, 0x14] ∧ Gen.Proto.p2pAckPrefix = [0x0C, 0, 0, 0, 0x14] ∧
+    Gen.Proto.p2pTypeRegistration = 0x10 ∧ Gen.Proto.p2pTypeDmrStartup = 0x11 ∧ Gen.Proto.p2pTypeRdacStartup = 0x12 ∧
+    Gen.Proto.p2pIsRegisteredKey = "p2p_is_registered" ∧
+    (List.range 15).map expected =
+      [Option.none, some [0x7E, 4, 0, 0xFD], some [0x7E, 4, 0, 0x10], some [0x7E, 4, 0, 0], some [0x7E, 4, 0, 0],
+       some [0x7E, 4, 0, 0x10], some [0x7E, 4, 0, 0], some [0x7E, 4, 0, 0x10], some [0x7E, 4, 0, 0x10], Option.none,
+       some [0x7E, 4, 0, 0], some [0x7E, 4, 0, 0x10], some [0x7E, 4, 0, 0], some [0x7E, 4, 0, 0xFA], Option.none] ∧
+    (List.range 15).map nextStep = [1, 2, 3, 4, 5, 6, 7, 8, 10, 9, 11, 12, 13, 14, 14] ∧
+    Gen.Proto.rdacStep0Request = [0x7E, 4, 0, 0xFE, 0x20, 0x10, 0, 0, 0, 0x0C, 0x60, 0xE1] ∧
+    (List.range 15).map requestsOf =
+      [[], [[0x7E, 4, 0, 0, 0x20, 0x10, 0, 1, 0, 0x18, 0x9B, 0x60, 2, 4, 0, 5, 0, 0x64, 0, 0, 0, 1, 0xC4, 3]], [],
+       [[0x7E, 4, 0, 0x10, 0x20, 0x10, 0, 1, 0, 0x0C, 0x61, 0xCE]],
+       [[0x7E, 4, 0, 0x10, 0x20, 0x10, 0, 2, 0, 0x0C, 0x61, 0xCD],
+        [0x7E, 4, 0, 0, 0x20, 0x10, 0, 2, 0, 0x19, 0x58, 0xA0, 2, 0xD4, 2, 6, 0, 0x64, 0, 0, 0, 2, 0, 0xF0, 3]], [],
+       [[0x7E, 4, 0, 0x10, 0x20, 0x10, 0, 3, 0, 0x0C, 0x61, 0xCC],
+        [0x7E, 4, 0, 0, 0x20, 0x10, 0, 3, 0, 0x19, 0x73, 0x84, 2, 0xD6, 0x82, 6, 0, 0, 0x64, 0, 0, 0, 2, 0x6E, 3]],
+       [[0x7E, 4, 0, 0, 0x20, 0x10, 0, 4, 0, 0x19, 0x57, 0x9F, 2, 0xD4, 2, 6, 0, 0x64, 0, 0, 0, 2, 1, 0xEF, 3]], [], [],
+       [[0x7E, 4, 0, 0, 0x20, 0x10, 0, 0x15, 0, 0x18, 0x9C, 0x4B, 2, 5, 0, 5, 0, 0x64, 0, 0, 0, 1, 0xC3, 3]], [],
+       [[0x7E, 4, 0, 0x10, 0x20, 0x10, 0, 0x15, 0, 0x0C, 0x61, 0xBA], [0x7E, 4, 0, 0xFB, 0x20, 0x10, 0, 0x16, 0, 0x0C, 0x60, 0xCE]],
+       [], []] := by
+  decide
+
+/-- **near misses of the command prefix / packet type.** A datagram is dispatched to the registration
+(DMR start-up, RDAC start-up) handler exactly when its first three octets are the command prefix AND
+the octet at offset 20 (0 if the datagram has 20 octets or fewer) is that packet type; a ping exactly
+when it is no command and octets 4 … 8 are the ping prefix.  So a datagram that differs from these in
+any single octet of a compared region, or ends inside it, is not that request. -/
+theorem p2p_dispatch_iff (data : Bytes) :
+    (dispatch data = .registration ↔
+      data.take 3 = Gen.Proto.p2pCommandPrefix ∧ data.getD 20 0 = Gen.Proto.p2pTypeRegistration) ∧
+    (dispatch data = .rdacRequest ↔
+      data.take 3 = Gen.Proto.p2pCommandPrefix ∧ data.getD 20 0 = Gen.Proto.p2pTypeRdacStartup) ∧
+    (dispatch data = .dmrRequest ↔
+      data.take 3 = Gen.Proto.p2pCommandPrefix ∧ data.getD 20 0 = Gen.Proto.p2pTypeDmrStartup) ∧
+    (dispatch data = .ping ↔
+      data.take 3 ≠ Gen.Proto.p2pCommandPrefix ∧ (data.drop 4).take 5 = Gen.Proto.p2pPingPrefix) := by
+  have h12 : Gen.Proto.p2pTypeRdacStartup ≠ Gen.Proto.p2pTypeRegistration := by decide
+  have h13 : Gen.Proto.p2pTypeDmrStartup ≠ Gen.Proto.p2pTypeRegistration := by decide
+  have h23 : Gen.Proto.p2pTypeDmrStartup ≠ Gen.Proto.p2pTypeRdacStartup := by decide
+  unfold dispatch isCommand isPing commandType
+  generalize data.getD 20 0 = t
+  generalize data.take 3 = pre
+  generalize (data.drop 4).take 5 = pg
+  by_cases hc : pre = Gen.Proto.p2pCommandPrefix
+  · subst hc
+    by_cases h1 : t = Gen.Proto.p2pTypeRegistration
+    · subst h1; simp [h12.symm, h13.symm]
+    · by_cases h2 : t = Gen.Proto.p2pTypeRdacStartup
+      · subst h2; simp [h12, h23.symm]
+      · by_cases h3 : t = Gen.Proto.p2pTypeDmrStartup
+        · subst h3; simp [h13, h23]
+        · simp [h1, h2, h3]
+  · have hc' : (pre == Gen.Proto.p2pCommandPrefix) = false := by simpa using hc
+    by_cases hp : pg = Gen.Proto.p2pPingPrefix
+    · subst hp; simp [hc', hc]
+    · have hp' : (pg == Gen.Proto.p2pPingPrefix) = false := by simpa using hp
+      simp [hp', hp, hc', hc]
+/-- one octet of the command prefix wrong (or the datagram shorter than the prefix): not a command -/
+theorem p2p_near_miss_command (data : Bytes) (i : Nat) (hi : i < 3)
+    (h : data[i]? ≠ Gen.Proto.p2pCommandPrefix[i]?) :
+    dispatch data ≠ .registration ∧ dispatch data ≠ .rdacRequest ∧ dispatch data ≠ .dmrRequest := by
+  have hne : data.take 3 ≠ Gen.Proto.p2pCommandPrefix := by
+    intro e
+    apply h
+    rw [← e, List.getElem?_take, if_pos hi]
+  obtain ⟨h1, h2, h3, _⟩ := p2p_dispatch_iff data
+  exact ⟨fun e => hne (h1.mp e).1, fun e => hne (h2.mp e).1, fun e => hne (h3.mp e).1⟩
+
+/-- … and such a datagram changes the storage (so: who is registered) only if … never: whatever it is
+dispatched to (a ping or nothing), the storage is as before -/
+theorem p2p_near_miss_state (cfg : Cfg) (s : Store) (a : Addr) (data : Bytes) (f : Bool)
+    (hd : dispatch data ≠ .registration) :
+    (P2p.step cfg s (.datagram a data f)).1 = s := by
+  cases hd' : dispatch data with
+  | registration => exact absurd hd' hd
+  | rdacRequest => simp only [P2p.step, hd', handleRdacRequest_state]
+  | dmrRequest => simp only [P2p.step, hd', handleDmrRequest_state]
+  | ping => simp only [P2p.step, hd', handlePing_state]
+  | nothing => simp only [P2p.step, hd']
+
+/-- one octet of the ping prefix wrong in a datagram that is no command: silence, in every state -/
+theorem p2p_near_miss_ping (cfg : Cfg) (s : Store) (a : Addr) (data : Bytes) (f : Bool) (i : Nat) (hi : i < 5)
+    (hc : isCommand data = false) (h : data[4 + i]? ≠ Gen.Proto.p2pPingPrefix[i]?) :
+    P2p.step cfg s (.datagram a data f) = (s, [], .ok) := by
+  apply p2p_silent cfg s a data f (Or.inr ⟨hc, ?_⟩)
+  unfold isPing
+  have hne : (data.drop 4).take 5 ≠ Gen.Proto.p2pPingPrefix := by
+    intro e
+    apply h
+    rw [← e, List.getElem?_take, if_pos hi, List.getElem?_drop]
+  simpa using hne
+
+/-- attributes that merely resemble the is-registered key do not authorise: whether a request from `a`
+is served depends on the record of `a` only through the attribute stored under exactly that key -/
+theorem p2p_near_miss_key (cfg : Cfg) (s : Store) (hinv : Storage.Inv s) (a : Addr) (key : Key) (v : Val)
+    (hk : envOk (.envPatch a key v) = true) (a' : Addr) :
+    reg (P2p.step cfg s (.envPatch a key v)).1 a' = reg s a' := by
+  have := (step_spec cfg hinv (.envPatch a key v) hk).2 a'
+  simpa [completes] using this
 
 /-! ## RDAC handler -/
 
@@ -312,6 +430,61 @@ theorem rdac_expected_advances (s : RState) (a : Addr) (data : Bytes) (f : Bool)
       first
         | rfl
         | cases hok
+
+/-- `data[:len(x)] == x` fails as soon as one octet of the compared region differs (or is missing) -/
+theorem hasPrefix_false_of_octet (x data : Bytes) (i : Nat) (hi : i < x.length) (h : data[i]? ≠ x[i]?) :
+    hasPrefix x data = false := by
+  unfold hasPrefix
+  have hne : data.take x.length ≠ x := by
+    intro e
+    have h2 : (data.take x.length)[i]? = x[i]? := by rw [e]
+    rw [List.getElem?_take, if_pos hi] at h2
+    exact h h2
+  simpa using hne
+
+/-- … in particular when the datagram is shorter than the compared region -/
+theorem hasPrefix_false_of_short (x data : Bytes) (h : data.length < x.length) : hasPrefix x data = false := by
+  apply hasPrefix_false_of_octet x data data.length h
+  rw [List.getElem?_eq_none (Nat.le_refl _), List.getElem?_eq_getElem h]
+  intro e; cases e
+
+/-- **rdac_near_miss_inert.** A datagram (not a one-octet reset) that is not the response the peer's step
+waits for — e.g. one that differs from it in a single octet of the compared prefix, however many of the
+other octets agree, or that is shorter than the prefix — is inert: the step stays, nothing is sent, nothing
+is reported, nothing is raised, and the storage only holds the (auto-created) record of the sender as before. -/
+theorem rdac_near_miss_inert (s : RState) (a : Addr) (data : Bytes) (f : Bool) (resp : Bytes)
+    (hl : data.length ≠ 1) (he : expected (stepAt s a.ip) = some resp) (hp : hasPrefix resp data = false) :
+    stepAt (Rdac.step s a data f).1 a.ip = stepAt s a.ip ∧
+    (Rdac.step s a data f).2 = ([], .ok) ∧
+    (Rdac.step s a data f).1.store = (Storage.step s.store (.matchIncoming a.val true [])).1 := by
+  simp only [stepAt] at he ⊢
+  have h0 : stepOf s.steps a.ip ≠ 0 := by
+    intro h0; rw [h0] at he; simp [expected, table] at he
+  have h14 : stepOf s.steps a.ip ≠ 14 := by
+    intro h14; rw [h14] at he; simp [expected, table] at he
+  have h1 : ¬ (data.length = 1 ∧ stepOf s.steps a.ip ≠ 14) := fun hh => hl hh.1
+  obtain ⟨houts, hstore⟩ := step_outs_stepN s a data f h1 h14
+  cases ht : table (stepOf s.steps a.ip) with
+  | none => simp [expected, ht] at he
+  | some p =>
+    obtain ⟨resp', nxt⟩ := p
+    have hr : resp' = resp := by simpa [expected, ht] using he
+    subst hr
+    have e : stepN (Storage.step s.store (.matchIncoming a.val true [])).1 (stepOf s.steps a.ip) a data f =
+        ((Storage.step s.store (.matchIncoming a.val true [])).1, Option.none, [], .ok) := by
+      simp [stepN, h0, h14, ht, hp]
+    refine ⟨?_, ?_, ?_⟩
+    · rw [step_stepOf_self, if_neg h1, if_neg h14, e]; rfl
+    · rw [houts, e]
+    · rw [hstore, e]
+
+/-- the C18-D shape, for every step: all octets of the expected prefix right but one ⇒ inert -/
+theorem rdac_one_octet_off (s : RState) (a : Addr) (data : Bytes) (f : Bool) (resp : Bytes) (i : Nat)
+    (hl : data.length ≠ 1) (he : expected (stepAt s a.ip) = some resp) (hi : i < resp.length)
+    (hne : data[i]? ≠ resp[i]?) :
+    stepAt (Rdac.step s a data f).1 a.ip = stepAt s a.ip ∧ (Rdac.step s a data f).2 = ([], .ok) :=
+  let r := rdac_near_miss_inert s a data f resp hl he (hasPrefix_false_of_octet resp data i hi hne)
+  ⟨r.1, r.2.1⟩
 
 /-- **exceptions.** A datagram that makes the handler raise leaves the step dictionary entry of its
 IP as it was — except the stubbed SNMP call of step 13, which fails after the step was set to 14 and
@@ -594,5 +767,35 @@ example :
                ⟨P1, [0x7E, 4, 0, 0x10], false⟩, ⟨P1, [0], false⟩]).1.steps = [([49], 1), ([50], 1)] ∧
     (Rdac.run [⟨P1, [0x55, 0x55], false⟩, ⟨P2, [0x7E, 4, 0, 0xFD], false⟩, ⟨P3, [0x7E, 4, 0, 0x10], false⟩,
                ⟨P1, [0x7E, 4, 0, 0x10], false⟩]).1.steps = [([49], 3), ([50], 1)] := by decide
+
+/-- near misses (kernel-checked): at step 13 the datagrams `00 00 00 FA`, `7E 05 00 FA`, `7E 04 00` and
+`7E 04 00 FB` leave the step at 13 and report nothing; `7E 04 00 FA` completes.  P2P: `P2Q…` with the
+registration type registers nobody (the following ping is rejected); an attribute named
+`p2p_is_registere` with a true value authorises nobody. -/
+private def at13 : List RInput :=
+  [⟨P1, [0x55, 0x55], false⟩, ⟨P1, [0x7E, 4, 0, 0xFD], false⟩, ⟨P1, [0x7E, 4, 0, 0x10], false⟩,
+   ⟨P1, [0x7E, 4, 0, 0], false⟩, ⟨P1, [0x7E, 4, 0, 0], false⟩, ⟨P1, [0x7E, 4, 0, 0x10], false⟩,
+   ⟨P1, [0x7E, 4, 0, 0], false⟩, ⟨P1, [0x7E, 4, 0, 0x10], false⟩, ⟨P1, [0x7E, 4, 0, 0x10], false⟩,
+   ⟨P1, [0x7E, 4, 0, 0] ++ List.replicate 23 0, false⟩, ⟨P1, [0x7E, 4, 0, 0x10], false⟩, ⟨P1, [0x7E, 4, 0, 0], false⟩]
+
+example :
+    (Rdac.run at13).1.steps = [([49], 13)] ∧
+    (Rdac.run (at13 ++ [⟨P1, [0, 0, 0, 0xFA], false⟩, ⟨P2, [0x7E, 5, 0, 0xFA, 1, 2], false⟩, ⟨P1, [0x7E, 4, 0], false⟩,
+        ⟨P1, [0x7E, 4, 0, 0xFB], false⟩])).1.steps = [([49], 13)] ∧
+    ((Rdac.run (at13 ++ [⟨P1, [0, 0, 0, 0xFA], false⟩, ⟨P1, [0x7E, 4, 0, 0xFA], false⟩])).2.drop 12).map
+        (fun r => (r.1.length, r.2)) = [(0, .ok), (1, .ok)] ∧
+    (Rdac.run (at13 ++ [⟨P1, [0x7E, 4, 0, 0xFA], false⟩])).1.steps = [([49], 14)] := by decide
+
+example :
+    ((P2p.run Cfg.default [.datagram P1 ([0x50, 0x32, 0x51] ++ (cmd 0x10).drop 3) false,
+        .datagram P1 ([0, 0, 0, 0, 0x0A, 0, 0, 0, 0x14] ++ List.replicate 7 0) false]).2.map
+        (fun r => (r.1.map (fun o => (o.kind, o.dest)), r.2)) =
+      [([], .ok), ([(.reject, P1.val)], .ok)]) ∧
+    ((P2p.run Cfg.default [.envPatch P1 (.dyn "p2p_is_registere") (.int 1),
+        .datagram P1 ([0, 0, 0, 0, 0x0A, 0, 0, 0, 0x14] ++ List.replicate 7 0) false]).2.map
+        (fun r => (r.1.map (fun o => (o.kind, o.dest)), r.2)) =
+      [([], .ok), ([(.reject, P1.val)], .ok)]) ∧
+    [Input.envPatch P1 (.dyn "p2p_is_registere") (.int 1), .setOut P1 (.addr [49] 4000)].all envOk = true ∧
+    envOk (.envPatch P1 (.dyn Gen.Proto.p2pIsRegisteredKey) (.int 1)) = false := by decide
 
 end Dmr.C18
